@@ -716,6 +716,8 @@ def access_kind(f, n):
             cal = p.get('callee', {})
             args = kids(p)[1:]
             ai = [a is cur for a in args].index(True)
+            if cal.get('n', '').startswith('std::') and short(cal.get('n', '')) in ('emplace_back', 'emplace', 'push_back', 'insert', 'try_emplace'):
+                return 'read'     # forwarding references of the standard containers: the argument is copied/moved from, not changed
             ptypes = _param_types(cal.get('fid', ''))
             if ai < len(ptypes) and ptypes[ai].endswith('&') and not ptypes[ai].endswith('&&') and not ptypes[ai].startswith('const '):
                 return 'rmw'
